@@ -973,6 +973,7 @@ def run_one(payload):
                 v['detail'] = 'second driver: ' + v['detail']
                 rec['violations'].append(v)
             rec['second_driver_rows'] = rec_b.get('rows')
+            rec['probes'] = dict(k.probes)
             rec['rows_replayed'] = (rec.get('rows_replayed') or 0) + (rec_b.get('rows_replayed') or 0)
             if rec_b.get('lost_without_failures'):
                 rec['lost_without_failures'] = True
@@ -1133,6 +1134,7 @@ def analyse(rec, c, k, out_path, inp_path, payload, driver=None):
     lost_buffers = collections.defaultdict(int)
     sampled = collections.defaultdict(bytes)     # task -> bytes appended to its private input file
     iters, iters_by_file, last_iter = [], {}, {}
+    enospc = set()                               # (task, private input file) whose append the injected full disk cut short
     for kind, n in notes:
         t = n.get('task')
         if kind == 'sim_end':
@@ -1151,6 +1153,8 @@ def analyse(rec, c, k, out_path, inp_path, payload, driver=None):
             lock_events[t].append((kind, n['ok'], n['code']))
         elif kind == 'buffer_lost':
             lost_buffers[t] += n['nbytes']
+        elif kind == 'disk_full':
+            enospc.add((t, n['path']))
         elif kind == 'copyfile' and t is not None and (n['src'].endswith('.out') or n['dst'].endswith('_result.txt')):
             it = last_iter.get(t)
             if it is not None:
@@ -1160,7 +1164,7 @@ def analyse(rec, c, k, out_path, inp_path, payload, driver=None):
             # one simulated iteration = one private input file (a pool task may run several iterations, e.g. batching)
             it = iters_by_file.get((t, n['path']))
             if it is None:
-                it = {'task': t, 'entries': b'', 'sim': None}
+                it = {'task': t, 'entries': b'', 'sim': None, 'path': n['path']}
                 iters_by_file[(t, n['path'])] = it
                 iters.append(it)
                 last_iter[t] = it
@@ -1351,6 +1355,14 @@ def analyse(rec, c, k, out_path, inp_path, payload, driver=None):
     tvecs = collections.Counter()
     if cont and len(iters) > 1:
         for it in iters:
+            if (it['task'], it.get('path')) in enospc or (it['sim'] is None and it['entries'] and not it['entries'].endswith(b'\n')
+                                                          and (k.fault_fired.get('short_write') or k.fault_fired.get('kill'))):
+                # the private input file was torn by an injected fault - the full disk stored a prefix of the append, or the
+                # worker was stopped between the two halves of a short write and never reached the simulator: what the file
+                # holds is the beginning of a draw ("name, 0"), not a draw, and two such stumps agree by construction
+                k.probes['iterations_whose_input_file_was_torn_by_a_fault'] += 1
+                rec['probes'] = dict(k.probes)
+                continue
             parts = [x.split(':', 1) for x in it['key'].split(';') if x]
             if len(parts) == len(c['inputs']) and all(len(x) == 2 for x in parts):
                 tvecs[tuple(parts[j][1] for j in cont)] += 1
